@@ -10,6 +10,7 @@ VARIANTS = {
     'plain':    dict(cc=GCC, cflags=['-O2', '-g']),
     'cov':      dict(cc=GCC, cflags=['-O0', '-g', '--coverage'], ldflags=['--coverage']),
     'msan':     dict(cc=['clang-14'], cflags=['-O1', '-g', '-fno-omit-frame-pointer', '-fsanitize=memory', '-fsanitize-memory-track-origins']),
+    'msan-i64': dict(cc=['clang-14'], cflags=['-O1', '-g', '-fno-omit-frame-pointer', '-fsanitize=memory', '-fsanitize-memory-track-origins', '-DXSDK_INDEX_SIZE=64']),
 }
 
 def std_units(module, table, chunk=50, cpu=None):
